@@ -703,6 +703,9 @@ func failingFunctions() functions.IFunctionCollection {
 	add("Fail", func(p []*variants.Variant, o variants.IVariantOperations) (*variants.Variant, error) {
 		return nil, fmt.Errorf("failed on purpose")
 	})
+	add("FailBoth", func(p []*variants.Variant, o variants.IVariantOperations) (*variants.Variant, error) {
+		return variants.VariantFromInteger(0), fmt.Errorf("failed on purpose, with a placeholder value") // the usual Go way
+	})
 	add("Third", func(p []*variants.Variant, o variants.IVariantOperations) (*variants.Variant, error) {
 		return variants.VariantFromArray(p).GetByIndex(2), nil // the Variant API panics with a string for short lists
 	})
@@ -723,6 +726,14 @@ func checkC03Fail(c c03Fail) *evid.Fail {
 		v, err := calc.EvaluateUsingVariablesAndFunctions(makeVars(c03Assignments[1]), failingFunctions())
 		if res = exactlyOne("Evaluate", v, err); res != nil {
 			res.Msg = fmt.Sprintf("%q with failing user functions: %s", c.Text, res.Msg)
+			return
+		}
+		// every operand and argument is evaluated: an expression that calls a function which fails cannot have a value
+		for _, failing := range []string{"PanicStr(", "PanicErr(", "PanicVal(", "PanicRuntime(", "Fail(", "FailBoth(", "Third()", "Third(1, 2)"} {
+			if strings.Contains(c.Text, failing) && err == nil {
+				res = evid.F("failing-function-yields-value", "%q evaluates to %s although the function called in it fails", c.Text, fromVariant(v))
+				return
+			}
 		}
 	}); g != nil {
 		g.Msg = fmt.Sprintf("expression %q with failing user functions: %s", c.Text, g.Msg)
@@ -738,7 +749,7 @@ func TestC03_EnumFailingFunctions(t *testing.T) {
 	rec.Exhaustive = true
 	rec.DupFree = true
 	defer finish(t, rec)
-	calls := []string{"PanicStr()", "PanicErr()", "PanicVal()", "PanicRuntime()", "Fail()", "Third(1, 2)", "Third(1, 2, 3)", "Seven()", "PanicStr(a, b)", "Third()"}
+	calls := []string{"PanicStr()", "PanicErr()", "PanicVal()", "PanicRuntime()", "Fail()", "FailBoth()", "FailBoth(a)", "Third(1, 2)", "Third(1, 2, 3)", "Seven()", "PanicStr(a, b)", "Third()"}
 	contexts := []string{"%s", "1 + %s", "%s + 1", "Max(%s, 1)", "Max(1, %s)", "Sum(%s, %s)", "NOT %s", "- %s", "%s[0]", "a IN Array(%s)", "If(%s, 1, 2)", "If(TRUE, 1, %s)", "%s IS NULL", "(%s) = (%s)", "Array(%s, 2)[0]", "Seven() + %s * 2"}
 	rec.Bounds = fmt.Sprintf("%d failing / succeeding user function calls x %d calling contexts x 2 managers", len(calls), len(contexts))
 	for _, call := range calls {
